@@ -4,7 +4,7 @@
    timeouts firing, any scheduling).  [Forall ok_label ls] excludes only the label [GCancel a false] = "the generator
    ended with the cancelled exception and the task-done hook did NOT restart" -- the behaviour of the intermediate fix
    7007369, refuted at the end of this file; for the code whose hook always restarts no trace contains that label. *)
-From EN Require Import Lib.Bytes Conc.DgramServer Proofs.C16_proofs.
+From EN Require Import Lib.Bytes Conc.DgramServer Conc.DgramListener Proofs.C16_proofs.
 
 (* _ClientData.state is None only when its queue is empty -- at every state, hence at every scheduling point *)
 Theorem state_none_implies_queue_empty :
@@ -56,6 +56,16 @@ Theorem per_client_conservation :
       length (held (cl s a)) + length (queue (cl s a)) + length (proj a (spawned s)).
 Proof. exact conservation_pf. Qed.
 Print Assumptions per_client_conservation.
+
+(* the asyncio listener across serve() restarts (coq/Conc/DgramListener.v): whatever the history of arrivals, serve()
+   calls and cancellations of serve(), every datagram the transport delivered is handed to a handler task exactly once,
+   in arrival order, or is still in the backlog waiting for the next serve(); while a serve() runs the backlog is empty *)
+Theorem listener_conservation :
+  forall (ls : list llabel) (s : lstate),
+    lsteps lstate0 ls = Some s ->
+    dispatched s ++ backlog s = larrivals ls /\ (serving s = true -> backlog s = []).
+Proof. exact listener_conservation_pf. Qed.
+Print Assumptions listener_conservation.
 
 (* frame property: a transition about address a changes nothing of any other address b -- neither its _ClientData and
    coroutine state nor its not-yet-started handler tasks ("slow handling of one client does not block others") *)
